@@ -2,6 +2,8 @@ package cluster
 
 import (
 	"context"
+	"crypto/tls"
+	"net"
 	"encoding/binary"
 	"fmt"
 	"io"
@@ -20,6 +22,7 @@ import (
 	"github.com/superfly/litefs/verif/pager"
 	"github.com/superfly/litefs/verif/ref"
 	"github.com/superfly/ltx"
+	"golang.org/x/net/http2"
 )
 
 // Cluster is a set of nodes sharing one lease service and one history.
@@ -199,6 +202,7 @@ func (n *CNode) Stop() {
 	n.FC.CutAll()
 	_ = n.Server.Close()
 	_ = n.Store.Close()
+	n.FC.Inner.HTTPClient.CloseIdleConnections()
 }
 
 func (n *CNode) closeConns() {
@@ -597,9 +601,33 @@ func (s *injectedStream) Close() error {
 
 var _ litefs.Client = (*FaultClient)(nil)
 
+// NoLingerDial is a DialContext for http.Transport whose connections close with
+// RST, so that the thousands of short-lived servers of a run do not park the
+// sandbox's ephemeral ports in TIME_WAIT.
+func NoLingerDial(ctx context.Context, network, addr string) (net.Conn, error) {
+	var d net.Dialer
+	c, err := d.DialContext(ctx, network, addr)
+	if tc, ok := c.(*net.TCPConn); ok {
+		_ = tc.SetLinger(0)
+	}
+	return c, err
+}
+
 // NewFaultClient returns a client with no faults armed.
 func NewFaultClient() *FaultClient {
-	fc := &FaultClient{Inner: lhttp.NewClient(), streams: map[*faultStream]struct{}{}}
+	inner := lhttp.NewClient()
+	if tr, ok := inner.HTTPClient.Transport.(*http2.Transport); ok {
+		// Thousands of short-lived nodes per run: closing with RST keeps the sandbox's
+		// ephemeral ports out of TIME_WAIT. Nothing in a property depends on FIN vs RST.
+		tr.DialTLS = func(network, addr string, _ *tls.Config) (net.Conn, error) {
+			c, err := net.Dial(network, addr)
+			if tc, ok := c.(*net.TCPConn); ok {
+				_ = tc.SetLinger(0)
+			}
+			return c, err
+		}
+	}
+	fc := &FaultClient{Inner: inner, streams: map[*faultStream]struct{}{}}
 	fc.cond = sync.NewCond(&fc.mu)
 	return fc
 }
